@@ -933,7 +933,7 @@ def ev_dtype(case):
 
     d, xkind, ykind, r, yrot = case["d"], case["xkind"], case["ykind"], case["rot"], case["yrot"]
     aname = ACQ[case["acq"]]
-    fails, seen, tags, slack, nev = [], {}, set(), {}, 0
+    fails, seen, tags, slack, nev, skipped = [], {}, set(), {}, 0, {}
 
     def bad(key, what, **kw):
         seen[key] = seen.get(key, 0) + 1
@@ -1024,6 +1024,11 @@ def ev_dtype(case):
             yscale = max(abs(v) for v in my) + abs(float(theta[0]))
             tol_mu = C_EPS * EPS * cond * yscale
             tol_var = C_EPS * EPS * cond * amp**2
+            if not (tol_mu <= 1e-3 * yscale and tol_var <= 1e-3 * amp**2):
+                # the re-fit selected hyper-parameters with an ill-conditioned covariance: the prediction comparison says nothing there (the data oracles do)
+                skipped["prediction comparison with a tolerance above 1e-3 of the scale (ill-conditioned re-fit)"] = skipped.get("prediction comparison with a tolerance above 1e-3 of the scale (ill-conditioned re-fit)", 0) + 1
+            else:
+                skipped["_compared"] = skipped.get("_compared", 0) + 1
             pts = [list(p) for p in DT_PROBES[d]] + [list(mx[-1])] + [[0.5 * (a + b) for a, b in zip(mx[-1], mx[0])]]
             for j, pt in enumerate(pts):
                 q = np.array(pt, dtype=float).reshape(1, d)
@@ -1085,7 +1090,10 @@ def ev_dtype(case):
         for f in fails:
             if f["key"] == k_:
                 f["occurrences_in_case"] = c
-    return {"fails": fails[:30], "n": nev, "tags": tags, "slack": slack, "sample": {"case": case}}
+    ncmp = skipped.pop("_compared", 0)
+    if ncmp:
+        tags.add(f"dtype predictions compared with a fresh float64 optimiser d={d} x={DT_CLASS[xkind]} y={DT_CLASS[ykind]}")
+    return {"fails": fails[:30], "n": nev, "tags": tags, "slack": slack, "skipped": skipped, "sample": {"case": case, "states_with_predictions_compared": ncmp}}
 
 
 EVALUATORS = {"acq": ev_acq, "selftest": ev_selftest, "history": ev_history, "dtype": ev_dtype}
